@@ -86,6 +86,49 @@ CLAIMED.update({
              technique="Rocq proof over event-fold and weighted-choice models + exhaustive history correspondence via verif-tag exports", design="5/C19"),
 })
 
+CLAIMED.update({
+ "C14": dict(text="Coq proofs for ALL verbs/paths/queries/bodies/thresholds over a byte-level model of EncodeTunnelledQuery / DecodeTunnelledQuery (multipart framing modelled with the boundary as an input and the "
+                  "premise that it is fresh): de-tunnelling restores verb, path, raw query, body, content type and headers (tunnel_roundtrip; refuted witness kept for an empty non-nil body), requests below the threshold are untouched, "
+                  "the threshold test (regenerated from http.go's AST, both modules) is exact, malformed tunnelled requests are rejected, serving with any threshold equals serving untunnelled; correspondence: the real client entry points, "
+                  "the wire (Request.Write / http.ReadRequest) and the real DecodeTunnelledQuery + a real server with a recording stub, on the property's grid, both modules.",
+             note="Trusted: kernel, translator (header/content-type constants, threshold condition), Go driver; mime/multipart is modelled, not verified (framing model + boundary freshness premise). One known finding (empty non-nil body through the exported EncodeTunnelledQuery).",
+             technique="Rocq proof over a byte-level tunnelling model + AST-regenerated threshold condition + wire-level differential correspondence", design="5/C14"),
+ "C15": dict(text="Coq proofs for ALL context paths in the grammar, encoded resource paths and queries over a hand-written model of the net/url functions formatQueryUrl uses: scheme and host kept, escaped path = context ++ resource path "
+                  "with the root segment exactly once, escaped path / raw query / String() byte-identical to the encoders' output (no double encoding, decoding, dot-segment or slash normalisation), the code's LastIndex surgery equals an independent context specification; "
+                  "a 256-byte sweep shows every byte the ROR2 path escaper leaves raw is accepted verbatim by net/url; correspondence: exhaustive context grammar x encoded paths x queries through the real client API of both modules.",
+             note="Trusted: kernel, translator (escape tables), Go driver; net/url is modelled, not verified (userinfo, IPv6, opaque URLs, fragments are explicitly outside the model).",
+             technique="Rocq proof over a net/url model + translator-regenerated escape tables + exhaustive grammar correspondence", design="5/C15"),
+})
+
+CLAIMED.update({
+ "C02": dict(text="Coq proofs for ALL keys/documents: an encoded key never contains '/', path segments are recovered by splitting, string keys round-trip through the path flavour, encoded keys are valid ROR2, the method header is always sent, "
+                  "and a generated client call reaches exactly the registered method through the router (call_reaches_method_partial, via C05's route_iff_spec; the full statement is kept as a Definition with a refuted witness); tunnelling composes through C14. "
+                  "Correspondence + oracle: every generated client method of a 12-resource family (all key types, simple, action set, sub-resources) through the REAL generated client and server (recording mocks) under 3 mountings, tunnelling thresholds, "
+                  "strict/lenient: arguments seen by the resource == arguments passed, value returned == value the mock returned; request line/query/headers/dispatch target equal the model's.",
+             note="PARTIAL: the reply direction is decided by the driver oracle (and C08 for statuses/errors), not by a Coq statement. Trusted: kernel, translators, the HTTP driver; net/http (ServeMux cleaning, header sanitisation) is external. "
+                  "Known findings: created ids with control bytes / edge spaces in X-RestLi-Id (D34), ServeMux redirecting keys '.' '..' or containing '/'. v2 module.",
+             technique="Rocq composition proof (escape tables + router + tunnelling lemmas) + end-to-end differential run through the real generator, client and server", design="5/C02"),
+ "C03": dict(text="An independent relational reference (Spec/RestliSpec.v: json_denotes on JSON trees, ror2_denotes directly on bytes, any byte may be percent-encoded, reserved characters must be) and Coq proofs for ALL schemas/values that the encoder model's "
+                  "JSON and ROR2 output conforms to it (with a refuted witness for nullable unions with no member), reserved characters never appear raw, emitted keys are exactly field names / map keys / aliases, and converse acceptance theorems "
+                  "(leaf/array/map over any schema; all types incl. records with unknown members in any order for schemas without includes/defaults; ROR2 leaves under any percent-encoding); correspondence: library output parsed by an independent strict JSON parser and an "
+                  "independent Go ROR2 parser and compared with an independent reference encoder; conforming variants (key permutations, unknown members, whitespace, alternative escapes, surrogate pairs, maximal/minimal/lower-case percent-encoding) fed to the real readers; envelope shapes and header constants.",
+             note="Trusted: kernel, translator (envelope member names, headers), the independent Go reference encoder/parsers, Codec.Json.parse_json as the shared lexical layer for JSON bytes (json_parse_render kept as a Definition, covered by the differential run), float text premises. "
+                  "Known findings: nullable union with no member written {} / () instead of null; included-record defaults. D11 (ROR2 bytes >= 0x80 as %80) accepted by the reference and documented.",
+             technique="Rocq conformance proof against an independent relational spec + two-direction differential check with independent parsers/renderers", design="5/C03"),
+ "C08": dict(text="Coq proofs for ALL heaps, method kinds and implementation outcomes over a model of the response path (ServeHTTP tail, newErrorResponsef call sites, recover, default statuses regenerated from the Register* functions by the translator, client error decoding): "
+                  "an error response is delivered with equal fields and its status (500 when unset) and the error header; any other error, panic or typed-nil entity becomes an error response with a failure status; the resource's error object is never written "
+                  "(the in-place write is a table obligation); success statuses are the protocol defaults unless overridden; malformed requests are 400 without invocation. Correspondence + oracle: every method kind of the resource family x ~80 outcomes x 3 mountings through the real generated client/server; "
+                  "thorough tier adds concurrent requests sharing error objects under the race detector.",
+             note="Trusted: kernel, translator (status tables), HTTP driver; net/http external. batch_errors_under_right_key is C16's subject (driver-checked here).",
+             technique="Rocq proof over a response-path model with translator-regenerated status tables + outcome-space differential run (+ race detector in thorough)", design="5/C08"),
+ "C17": dict(text="Coq proofs for ALL trees, requests, filter lists, histories and interleavings over an access-logging model (footprints derived from the router, response tail, D2 write log, registry): serving a request writes only cells of that request, "
+                  "everything shared is only read (or atomic/locked), two operations never conflict, any interleaving gives each request its isolated-run outcome, D2 snapshots are copy-on-write, the rand state is always accessed under its lock; regression lemmas show the two fixed defects "
+                  "(in-place error message, unlocked rng) would conflict. The tie to the real code is the race detector: concurrent mixed requests / client calls / resolutions / registry use, results compared with serial runs.",
+             note="PARTIAL: data-race freedom of the real Go program is NOT decided by proof (Go memory model and scheduler are runtime facts): proved is non-interference of the modelled accesses, and race freedom given adequacy of the footprints; adequacy is tested with -race runs. "
+                  "Races inside user filters/resources and concurrent Register* on a live server are out of scope.",
+             technique="Rocq non-interference proof over access footprints + race-detector differential runs", design="5/C17 and 7"),
+})
+
 def main():
     checks, na = [], []
     for p in ALL:
